@@ -46,7 +46,11 @@ def make_event(case):
     from mathy_core.layout import TreeLayout
     s = tuple_shape(case["shape"])
     ux, uy = case["mult"]
-    root = shapes.build(s, case["cls"])
+    try:
+        root = shapes.build(s, case["cls"])
+    except BaseException as e:  # noqa
+        return {"h": {"n": 0}, "root": 0, "ux": 0, "uy": 0, "outcome": "constructing the tree raised " + type(e).__name__, "exact": True, "X": [], "Y": [], "X2": [], "Y2": [],
+                "XM": [], "YM": [], "m": {}, "m2": {}, "mirror_ok": True}
     objs = project.ObjTable()
     for n in preorder(root):
         objs.of(n)
@@ -101,7 +105,7 @@ def subshapes(s):
 
 
 def domain(ctx):
-    n = 9 if ctx.quick else 10
+    n = 10
     rng = random.Random(ctx.seed * 29 + 3)
     cases = []
     for s in shapes.shapes_upto(n):
